@@ -965,16 +965,17 @@ fn main() {
     let nfonts = if thorough { 3600 } else { 450 };
     for fi in 0..nfonts {
         let malformed = fi % 9 == 8;
-        let o = GenOpts { malformed, mode: if fi % 5 == 4 && !malformed { 4 } else { rng.below(4) } };
+        let o = GenOpts { malformed, mode: if fi % 5 == 4 && !malformed && fi % 9 != 7 { 4 } else { rng.below(4) } };
         let layout = rng.below(20);
         let same_cid = rng.chance(1, 15);
         let mut tables: Vec<ATable> = vec![];
-        let t0 = *rng.pick(TEMPLATES);
+        let t0 = if fi % 9 == 7 && rng.chance(1, 2) { *rng.pick(&TEMPLATES[8..]) } else { *rng.pick(TEMPLATES) };
         let t1 = if o.mode == 4 { TEMPLATES[3] } else if rng.chance(1, 2) { t0 } else { *rng.pick(TEMPLATES) };
         let t0 = if o.mode == 4 { TEMPLATES[0] } else { t0 };
         let same_cid = same_cid && o.mode != 4;
         // invalid templates only in the malformed stream
-        let fix = |t: (&'static str, bool)| if !t.1 && !malformed { TEMPLATES[0] } else { t };
+        let bad_template = fi % 9 == 7;
+        let fix = |t: (&'static str, bool)| if !t.1 && !bad_template { TEMPLATES[0] } else { t };
         if layout < 17 {
             tables.push(gen_table(&mut rng, 0, 1, fix(t0), &o, &mut st));
         }
